@@ -22,8 +22,29 @@ def programs(ctx, rng, kind, nops, pool):
     raise ValueError(kind)
 
 
+def scripted_programs(bpc):
+    """targeted histories (minimised past disagreements and boundary shapes), run before the random programs"""
+    f83 = [f"/D/F{i:02d}.TXT" for i in range(15)]
+    return [
+        # a directory that shrinks to an exact multiple of 16 slots (no room for an end mark in the last sector), then across a cluster boundary
+        [["makedir", "/D"]] + [["create", p] for p in f83] + [["remove", f83[-1]], ["listdir", "/D"]] +
+        [["create", f"/D/second cluster long name {i:02d}.txt"] for i in range(30)] + [["remove", f"/D/second cluster long name {i:02d}.txt"] for i in range(3, 30)] + [["listdir", "/D"]],
+        # a file whose size is an exact multiple of the cluster size, appended by less than a cluster; then an unrelated operation
+        [["makedir", "/A"], ["makedir", "/A/B"], ["open", "h", "/A/B/V.BIN", "w"], ["write", "h", "41" * (2 * bpc)], ["hclose", "h"],
+         ["open", "g", "/A/B/V.BIN", "a"], ["write", "g", "42" * 10], ["hclose", "g"], ["makedir", "/NEW"], ["getsize", "/A/B/V.BIN"]],
+        # re-open a non-empty file and grow it over a cluster boundary through r+, truncate and w
+        [["open", "h", "/G.BIN", "w"], ["write", "h", "47" * 100], ["hclose", "h"], ["open", "i", "/G.BIN", "r+"], ["seek", "i", 0, 2],
+         ["write", "i", "48" * (bpc + 50)], ["hclose", "i"], ["open", "j", "/G.BIN", "r+"], ["truncate", "j", 3 * bpc + 1], ["hclose", "j"],
+         ["open", "k", "/G.BIN", "w"], ["write", "k", "49" * (2 * bpc + 3)], ["hclose", "k"], ["open", "l", "/G.BIN", "w"], ["hclose", "l"], ["remove", "/G.BIN"]],
+        # fragmented free space: B between A and C is removed, A is extended by more than the hole
+        [["open", "a", "/A.BIN", "w"], ["write", "a", "61" * bpc], ["hclose", "a"], ["open", "b", "/B.BIN", "w"], ["write", "b", "62" * bpc], ["hclose", "b"],
+         ["open", "c", "/C.BIN", "w"], ["write", "c", "63" * bpc], ["hclose", "c"], ["remove", "/B.BIN"], ["open", "a2", "/A.BIN", "a"],
+         ["write", "a2", "64" * (2 * bpc)], ["hclose", "a2"], ["open", "r", "/C.BIN", "r"], ["read", "r", -1], ["hclose", "r"], ["open", "r2", "/A.BIN", "r"], ["read", "r2", -1], ["hclose", "r2"]],
+    ]
+
+
 def run_histories(ctx, oracles, nprog, nops, kind="namespace", vol_filter=None, mounts=None, remount_every=False,
-                  extra_cases=(), add_close=True, use_model=True, uni=True):
+                  extra_cases=(), add_close=True, use_model=True, uni=True, scripted=True):
     vols = gen.volumes(ctx.tier)
     if vol_filter:
         vols = [v for v in vols if vol_filter(v[0])]
@@ -31,6 +52,23 @@ def run_histories(ctx, oracles, nprog, nops, kind="namespace", vol_filter=None, 
     m = Model() if use_model else None
     built = {}
     try:
+        if scripted:
+            from .. import fatspec
+            for vi, (label, thunk) in enumerate(vols):
+                if label in ("build32-high", "build32-real", "mkfs32") and ctx.tier == "quick":
+                    continue
+                if ctx.time_left() < 20:
+                    break
+                if label not in built:
+                    built[label] = thunk()
+                img, meta = built[label]
+                bpc = fatspec.Volume(img, force_ft=history.force_ft(meta)).bpc
+                progs = scripted_programs(bpc)
+                for si in ([vi % len(progs)] if ctx.tier == "quick" else range(len(progs))):
+                    mnt = dict(mounts[(vi + si) % len(mounts)])
+                    case = history.Case(label, img, progs[si] + ([["closefs"]] if add_close else []), mount=mnt, meta=meta)
+                    history.run_case(ctx, case, oracles=oracles, model=m, use_model=use_model, remount_every=remount_every)
+                    ctx.dist["scripted"] += 1
         for i in range(nprog):
             if ctx.time_left() < 0:
                 ctx.notes.append(f"time budget reached after {i} programs")
